@@ -25,6 +25,12 @@ func (ex *Exec) execInstr(fr *frame, st *State, ins ssa.Instruction) {
 	case *ssa.BinOp:
 		st.env[x] = ex.binop(st, x.Op, ex.operand(st, x.X), ex.operand(st, x.Y), x.X.Type(), x.Pos())
 	case *ssa.FieldAddr:
+		if t, ok := ex.operand(st, x.X).(*Term); ok {
+			// field of a struct from another package behind an opaque pointer
+			fname := x.X.Type().Underlying().(*types.Pointer).Elem().Underlying().(*types.Struct).Field(x.Field).Name()
+			st.env[x] = App("fieldaddr."+string(t.S)+"."+fname, Sort("O_ref"), t)
+			break
+		}
 		p := ex.operand(st, x.X).(*PtrVal)
 		r := &PtrVal{}
 		for _, al := range p.Alts {
@@ -105,7 +111,7 @@ func (ex *Exec) unop(st *State, x *ssa.UnOp) Value {
 	case token.MUL:
 		if t, ok := v.(*Term); ok {
 			// deref of opaque external pointer
-			return App("deref."+string(t.S), sortOf(x.Type()), t)
+			return ex.symValue(x.Type(), ufNamer("deref."+string(t.S), t), false)
 		}
 		return ex.load(st, v.(*PtrVal), x.Type(), x.Pos())
 	case token.NOT:
